@@ -77,15 +77,6 @@ Inductive hostop :=
 | HReset | HSeed (n : Z) | HGlobalTags | HPathStr | HStatus
 | HUnsupported.
 
-(* switches regenerated from the source (Gen/EngineGen.v) are passed in *)
-Record switches := mkSwitches {
-  sw_alias_current : bool;
-  sw_warnings_cleared : bool;
-  sw_observer_removal_checked : bool;
-  sw_remove_flow_checked : bool;
-  sw_ovf_panics : bool
-}.
-
 Record drv := mkDrv {
   dr_story : option story;
   dr_world : option world;
@@ -98,8 +89,6 @@ Section Run.
 Variable sw : switches.
 Variable orc : oracles.
 Let I := mk_iface (sw_ovf_panics sw) orc.
-Let AC := sw_alias_current sw.
-Let WC := sw_warnings_cleared sw.
 
 (* ---------- rendering ---------- *)
 Definition show_ekind (k : ekind) : text :=
@@ -203,16 +192,16 @@ Definition run_op_world (op : hostop) (seed : Z) (w : world) : text * world * bo
     end in
   let unitop (m : M unit) := fin (m w) (fun _ => T "ok") in
   match op with
-  | HCont => fin (api_cont I AC WC w) (fun t => T "ok(" ++ quote_text t ++ T ")")
+  | HCont => fin (api_cont I sw w) (fun t => T "ok(" ++ quote_text t ++ T ")")
   | HContMax =>
-      match continue_maximally I AC WC w with
+      match continue_maximally I sw w with
       | (OOk t, w') => (T "ok(" ++ quote_text t ++ T ")", w' <| w_lines ::= N.add (count_newlines t) |>, false)
       | (OErr k _, w') => (show_err k, w', false)
       | (OPanic _, w') => (T "panic", w', true)
       end
   | HContAsync sched =>
       let w1 := set_pause_schedule sched w in
-      match continue_async I AC WC true w1 with
+      match continue_async I sw true w1 with
       | (OOk _, w') =>
           let w2 := set_pause_schedule [] w' in
           (T "ok(active=" ++ show_bool01 (w_async w') ++ T ")",
@@ -223,20 +212,20 @@ Definition run_op_world (op : hostop) (seed : Z) (w : world) : text * world * bo
       end
   | HChoose i =>
       if (i <? 0)%Z then (T "err(BadArgument)", w, false)
-      else unitop (choose_choice_index I (Z.to_nat i))
+      else unitop (choose_choice_index I sw (Z.to_nat i))
   | HPath p reset args =>
       match args with
-      | None => unitop (choose_path_string I p reset [])
+      | None => unitop (choose_path_string I sw p reset [])
       | Some l => match resolve_svals w l with
-                  | Some vs => unitop (choose_path_string I p reset vs)
-                  | None => unitop (choose_path_string I p reset [])   (* parse_args -> None -> no args *)
+                  | Some vs => unitop (choose_path_string I sw p reset vs)
+                  | None => unitop (choose_path_string I sw p reset [])   (* parse_args -> None -> no args *)
                   end
       end
   | HSwitch f => unitop (switch_flow f)
   | HSwitchDefault => unitop switch_to_default_flow
-  | HRemoveFlow f => unitop (remove_flow (sw_remove_flow_checked sw) f)
+  | HRemoveFlow f => unitop (remove_flow sw f)
   | HObserve id var => unitop (observe_variable var id)
-  | HUnobserve id var => unitop (remove_variable_observer (sw_observer_removal_checked sw) id var)
+  | HUnobserve id var => unitop (remove_variable_observer sw id var)
   | HBind name safe beh => unitop (bind_external name (mkExtdef safe beh))
   | HUnbind name => unitop (unbind_external name)
   | HFallbacks b => unitop (modify (fun w => w <| w_fallbacks := b |>))
@@ -254,7 +243,7 @@ Definition run_op_world (op : hostop) (seed : Z) (w : world) : text * world * bo
   | HVisits p => fin (visit_count_at_path_string p w) (fun n => T "ok(" ++ show_Z n ++ T ")")
   | HEval f args =>
       let go (a : option (list value)) :=
-        fin (evaluate_function I AC WC f a w)
+        fin (evaluate_function I sw f a w)
             (fun r => T "ok(" ++ (match fst r with Some v => show_value v | None => T "none" end)
                       ++ [44] ++ quote_text (snd r) ++ T ")") in
       match args with
@@ -264,7 +253,7 @@ Definition run_op_world (op : hostop) (seed : Z) (w : world) : text * world * bo
                   | None => (T "badvalue", w, false)
                   end
       end
-  | HReset => unitop (reset_state I AC WC seed)
+  | HReset => unitop (reset_state I sw seed)
   | HSeed n => unitop (mod_state (fun s => s <| ss_seed := n |>))
   | HGlobalTags => fin (tags_for_content_at_path [] w) (fun t => T "ok(" ++ show_texts t ++ T ")")
   | HPathStr =>
@@ -284,7 +273,7 @@ Definition new_story (d : drv) : text * drv :=
   match dr_story d with
   | None => (T "nostory", d)
   | Some st =>
-      match story_new I AC WC st (dr_seed d) (dr_fuel d) with
+      match story_new I sw st (dr_seed d) (dr_fuel d) with
       | (OOk _, w) => (T "ok", mkDrv (dr_story d) (Some w) false (dr_seed d) (dr_fuel d))
       | (OErr k _, _) => (show_err k, mkDrv (dr_story d) None false (dr_seed d) (dr_fuel d))
       | (OPanic _, _) => (T "panic", mkDrv (dr_story d) None false (dr_seed d) (dr_fuel d))
@@ -387,7 +376,6 @@ Fixpoint explore (depth : nat) (d : drv) (path : list nat) (budget : nat) (acc :
 End Run.
 
 (* ---------- whole cases ---------- *)
-Definition default_switches : switches := mkSwitches true false false false true.
 
 Definition run_case (sw : switches) (orc : oracles) (j : json) (seed : Z) (fuel : N)
            (script : list hostop) (explore_depth : option (nat * nat)) : list text :=
